@@ -166,6 +166,8 @@ struct Bank {
     /// The descriptor that travels with `mfd` (dup'ed per execution).
     fd: OwnedFd,
     fd_inode: u64,
+    /// An fd-carrying message the client tries to send after the handshake (capability probe).
+    probe: Message,
 }
 
 fn serial(n: u32) -> std::num::NonZeroU32 {
@@ -223,7 +225,13 @@ fn build_bank() -> Bank {
         .unwrap();
     let b = |m: &Message| m.data().bytes().to_vec();
     let fd_inode = inode_of(&fd);
+    let probe = Message::signal("/p", "x.y.P", "Probe")
+        .unwrap()
+        .serial(serial(900))
+        .build(&(Fd::from(&fd),))
+        .unwrap();
     Bank {
+        probe,
         hello_return: b(&hello_return),
         hello_error: b(&hello_error),
         signal_first: b(&signal_first),
@@ -476,13 +484,9 @@ fn execute(cfg: &Cfg, bank: &Bank, lines: &[&[u8]], mode: Mode, trailing: Traili
         // fd capability: sending a message that carries an fd is refused with `Unsupported`
         // exactly when fd passing was not agreed.
         let conn = conn.clone();
-        let probe_fd = new_fd("c17-probe");
+        let m = bank.probe.clone();
         let r = catch(|| {
             w.complete("fd-probe", async move {
-                let m = Message::signal("/p", "x.y.P", "Probe")
-                    .unwrap()
-                    .build(&(Fd::from(&probe_fd),))
-                    .unwrap();
                 match conn.send(&m).await {
                     Ok(()) => Ok(true),
                     Err(zbus::Error::Unsupported) => Ok(false),
@@ -978,7 +982,11 @@ pub fn main(args: &Args) -> i32 {
         // ---- read splits ----
         // Streams that stop inside the handshake (failed / panicked in the base run) never read
         // past the lines, so only their base variant is split.
-        let worth = base_variant || matches!(*base_class, "completed" | "waiting");
+        // In the BusError / BusSignalFirst flavours the client gives up at the Hello reply and never
+        // reads the trailing bytes, so those are split with nothing trailing only.
+        let gives_up_at_hello = matches!(mode, Mode::BusError | Mode::BusSignalFirst);
+        let worth = base_variant
+            || (matches!(*base_class, "completed" | "waiting") && (!gives_up_at_hello || trailing == Trailing::None));
         if !worth || syms.len() > 2 {
             return;
         }
